@@ -333,3 +333,12 @@ pub fn dump(a: &Args) {
 pub fn selfcheck(a: &Args) -> Report {
     crate::selfcheck::run(a)
 }
+
+pub fn curated_status(_a: &Args) {
+    for (name, s, _) in vcore::curated::curated() {
+        let (_, o) = common::observe(&s, false);
+        if !o.accepted {
+            println!("{name}: REJECTED {:?}", o.errors.iter().map(|e| e.lines().next().unwrap_or("").to_string()).collect::<Vec<_>>());
+        }
+    }
+}
